@@ -102,7 +102,8 @@ def _lemmatizer(cfg, w):
 
         def lem(form, pos=None):
             ent = table.get(form, {})
-            return {(p or None): set(fs) for p, fs in ent.items() if fs}
+            # a group may be empty: nothing proposed for that part of speech
+            return {(p or None): set(fs) for p, fs in ent.items()}
         return lem
     if cfg['lemmatizer'] == 'morphy':
         return wn.morphy.Morphy()
@@ -148,6 +149,7 @@ def _search(view, kind, cands, normalized, all_forms):
 
 def reference(view, kind, query, pos, cfg, lemmatize):
     cands = lemmatize(query, pos) if lemmatize else {}
+    cands = {p: fs for p, fs in cands.items() if fs}     # only proposed (pos, form) pairs count
     if not cands:
         cands = {pos: {query}}
     normalized = cfg['normalizer']
@@ -222,6 +224,8 @@ def _classify(case):
         if cfg['lemmatizer'] == 'table':
             for q, pos in cfg['queries']:
                 ent = cfg['table'].get(q, {})
+                if ent and not all(ent.values()):
+                    tags.add('lemmatizer-empty-group')
                 cands = {(p or None): set(fs) for p, fs in ent.items() if fs}
                 if len(cands) >= 2:
                     tags.add('lemmatizer-several-groups')
@@ -271,6 +275,6 @@ SUBS = [
         budget={'quick': 250, 'thorough': 4000}, sample=_sample,
         fingerprint=lambda c: fingerprint(c),
         require_tags=('exact-hit', 'normalized-column-hit', 'back-off-hit',
-                      'miss-with-near-match', 'lem:table', 'lem:morphy', 'lem:morphy-init',
+                      'miss-with-near-match', 'lemmatizer-empty-group', 'lem:table', 'lem:morphy', 'lem:morphy-init',
                       'groups-mixed-hit-and-backoff-only', 'selected-lexicons-share-ids')),
 ]
